@@ -128,27 +128,31 @@ theorem findValidNeighborsAt_generated_eq (m : DMap) (dirs : Int → Int → Int
       forRange_scanAcc_ok m (dirs k 0, dirs k 1) _ _ _ _ _ _ ?body]
   · simp [hlen]
   case body =>
+    -- whatever the order of the four edge tests and the names of the locals
     intro i ok out tr tc
     simp only [hd0, hd1, hi0, hi1, Bool.and_true]
     by_cases hin : m.inside (tc + dirs k 1, tr + dirs k 0) = true
     · have hin' := hin
       simp only [DMap.inside, Bool.and_eq_true, decide_eq_true_eq] at hin'
       obtain ⟨⟨⟨h1, h2⟩, h3⟩, h4⟩ := hin'
-      have hcond : (decide (tc + dirs k 1 < 0) || decide (tc + dirs k 1 ≥ (m.rows : Int))
-          || decide (tr + dirs k 0 < 0) || decide (tr + dirs k 0 ≥ (m.cols : Int))) = false := by
-        simp; omega
       have hv := valid_test m (tc + dirs k 1, tr + dirs k 0)
-      simp only [hcond, hin, Bool.not_true, Bool.false_eq_true, if_false,
-        get2_of (embedFlag m) _ _ h1 h3, get2_of (embedDisp m) _ _ h1 h3, inb2_of h1 h2 h3 h4,
-        embedFlag_nonneg, decide_true, Bool.and_true, hv]
       by_cases hval : m.validAt (tc + dirs k 1, tr + dirs k 0) = true
-      · simp [hval, DMap.dispAt, embedDisp]
-      · simp [hval]
-    · have hcond : (decide (tc + dirs k 1 < 0) || decide (tc + dirs k 1 ≥ (m.rows : Int))
-          || decide (tr + dirs k 0 < 0) || decide (tr + dirs k 0 ≥ (m.cols : Int))) = true := by
+      · simp only [hin, hval, Bool.not_true, Bool.false_eq_true, if_false, if_true]
+        split
+        · rename_i hc; simp only [Bool.or_eq_true, decide_eq_true_eq] at hc; omega
+        · simp [get2_of (embedFlag m) _ _ h1 h3, get2_of (embedDisp m) _ _ h1 h3, inb2_of h1 h2 h3 h4,
+            embedFlag_nonneg, hv, hval, DMap.dispAt, embedDisp]
+      · simp only [hin, hval, Bool.not_true, Bool.false_eq_true, if_false]
+        split
+        · rename_i hc; simp only [Bool.or_eq_true, decide_eq_true_eq] at hc; omega
+        · simp [get2_of (embedFlag m) _ _ h1 h3, inb2_of h1 h2 h3 h4, embedFlag_nonneg, hv, hval]
+    · simp only [hin, Bool.not_false, if_true]
+      split
+      · rfl
+      · rename_i hc
         simp only [DMap.inside, Bool.and_eq_true, decide_eq_true_eq] at hin
-        simp; omega
-      simp [hcond, hin]
+        simp only [Bool.or_eq_true, decide_eq_true_eq, not_or] at hc
+        omega
 
 /-! ### the whole array -/
 
